@@ -17,8 +17,8 @@ import (
 
 type anyValidator struct{}
 
-func (anyValidator) Validate(string, []byte) error          { return nil }
-func (anyValidator) Select(string, [][]byte) (int, error)   { return 0, nil }
+func (anyValidator) Validate(string, []byte) error        { return nil }
+func (anyValidator) Select(string, [][]byte) (int, error) { return 0, nil }
 
 // putLocalRecord files a record in the node's value datastore through the
 // public ValueStore API with a permissive validator, so that records the
@@ -197,6 +197,12 @@ func TestLookupGCP(t *testing.T) {
 	// random schedules of larger scenarios
 	for i := 0; i < nLarge; i++ {
 		sc := genLookupScenario(r, "gcp", false)
+		// (SlowEv - lookup events consumed slowly, so that several answers wait while the lookup is blocked
+		// publishing - is implemented in the runner but not generated: the monitor reconstructs the lookup's
+		// state from the events in lockstep with the deliveries and would have to be rebuilt for late events)
+		if os.Getenv("VERIF_SLOWEV") != "" {
+			sc.SlowEv = i%4 == 3
+		}
 		ch := sim.NewRandomChooser(r.Int63())
 		evs := runLookup(t, sc, ch)
 		rec.Record(evs, replayDesc{sc, ch.Taken()}, nontrivialLookup(sc, evs))
@@ -396,5 +402,9 @@ func TestOpsAll(t *testing.T) { runOpsDriver(t, "ops-all", allOps, 42, 40, 210) 
 func TestOpsValue(t *testing.T) {
 	runOpsDriver(t, "ops-value", []string{"getvalue", "searchvalue", "getpubkey"}, 45, 50, 240)
 }
-func TestOpsProviders(t *testing.T) { runOpsDriver(t, "ops-findprov", []string{"findprov"}, 40, 50, 200) }
-func TestOpsPut(t *testing.T)       { runOpsDriver(t, "ops-put", []string{"putvalue", "provide"}, 40, 50, 200) }
+func TestOpsProviders(t *testing.T) {
+	runOpsDriver(t, "ops-findprov", []string{"findprov"}, 40, 50, 200)
+}
+func TestOpsPut(t *testing.T) {
+	runOpsDriver(t, "ops-put", []string{"putvalue", "provide"}, 40, 50, 200)
+}
